@@ -78,7 +78,7 @@ CHECKS["C03"] = {
 CHECKS["C12"] = {
     "level": "fault_enumeration",
     "technique": "rapid-generated base scenarios; a connection reset (preceded by a partial delivery cutting a record in a chosen offset class) or a session Close (optionally racing with other calls) is injected at EVERY operation position of each base scenario; teardown oracle at quiescence (synctest bubble); real-time generated workloads for accept-queue overflow, simultaneous closes from both ends and large unread backlogs (progress counter + goroutine-dump criterion)",
-    "level_text": "For each generated base scenario the fault is enumerated over every operation boundary and, per fault spec, over connection x offset class (record boundary, TLS header, frame header, payload, tag); after each injection the interpreter drains the network and checks prefix-only delivery, that every parked Read/Write/Accept/Close returned, that OpenStream is refused, that every connection end was closed, and (before the fault) that the active-stream counter equals the model count at every quiescent step; inactivity-timer phases are explored on the virtual clock. A bubble that ends up permanently stuck with a goroutine queued on a lock (which stops the virtual clock) is recognised by a real-time watchdog from two identical goroutine dumps and judged by the same post-fault rules evaluated on the harness' bookkeeping (violation only if a fault or session close had been injected and a blocked call has not returned or a connection was not closed); otherwise exit 2. At layer 3 (real client and server code over the test network) connection attempts fail in six ways during session set-up, including a reply that fails only after sibling connections have joined and a sibling whose reply is delayed past that failure; the established session must either work on six probe streams or be closed. A real-time sub-check closes streams from both ends at the same moment (50-500 per batch, a canary stream stays open) and requires both sessions to count exactly the canary once settled. Another closes the session (Close on either side, connection reset) while 1..1064 peer-opened streams wait un-accepted: the teardown must complete, a late Accept must return, nothing may panic; the peer-initiated case with an overflowing accept queue is the recorded known finding F-C12f (excluded by construction: the application resumes accepting; reproduced once per run).",
+    "level_text": "For each generated base scenario the fault is enumerated over every operation boundary and, per fault spec, over connection x offset class (record boundary, TLS header, frame header, payload, tag); after each injection the interpreter drains the network and checks prefix-only delivery, that every parked Read/Write/Accept/Close returned, that OpenStream is refused, that every connection end was closed, and (before the fault) that the active-stream counter equals the model count at every quiescent step; inactivity-timer phases are explored on the virtual clock. A bubble that ends up permanently stuck with a goroutine queued on a lock (which stops the virtual clock) is recognised by a real-time watchdog from two identical goroutine dumps and judged by the same post-fault rules evaluated on the harness' bookkeeping (violation only if a fault or session close had been injected and a blocked call has not returned or a connection was not closed); otherwise exit 2. At layer 3 (real client and server code over the test network) connection attempts fail in six ways during session set-up, including a reply that fails only after sibling connections have joined and a sibling whose reply is delayed past that failure; the established session must either work on six probe streams or be closed. A real-time sub-check closes streams from both ends at the same moment (50-500 per batch, a canary stream stays open) and requires both sessions to count exactly the canary once settled. Another closes the session (Close on either side, connection reset) while 1..1064 peer-opened streams wait un-accepted: the teardown must complete, a late Accept must return, nothing may panic; the peer-initiated case with an overflowing accept queue is the recorded known finding F-C12f (excluded by construction: the application resumes accepting; reproduced once per run). IdleRace (real time, every log statement of the code under test a scheduling point): 16-48 session pairs hand their only stream over to a new one at generated offsets (close of the last stream racing the opening of the next), stay silent for 1.5 inactivity periods with the new stream open, and must all still be open and carry data.",
     "level_note": "Schedules inside a step are the Go runtime's; under back pressure only one writer per stream is generated (a parked writer holds the stream mutex, which synctest cannot treat as durably blocked).",
     "rule": "base scenario: rapid-drawn config (ordered/unordered, 1..8 conns or singleplex, optional bounded buffers) and <=30 ops; faults: 1..3 specs x every position 0..len(ops). Non-trivial = fault strictly inside a record, or frames had arrived out of order before it, or a goroutine was parked in Read/Write at the fault; distinct = distinct scenarios (each standing for (len(ops)+1) x specs executions, counted in evaluations). UnreadBacklog: {1,8,20,40,70} MiB written to a stream nobody reads, a reader parked on a second stream, 1..3 connections, trigger from {reset, close-receiver, close-sender}; non-trivial = >=8 MiB.",
     "assumptions": ["a reset is seen by both ends; EOF is seen after in-flight bytes were delivered (TCP-like)", "the code under test does not complete a teardown through a timer while other goroutines queue on its locks (wedge verdicts)"],
@@ -90,6 +90,7 @@ CHECKS["C12"] = {
         {"pkg": MUX, "run": "^TestVerif_C12_AcceptBacklog$", "realtime": True, "checks": {"quick": 40, "thorough": 2000}, "shards": {"thorough": 8}, "timeout": {"quick": 900}},
         {"pkg": MUX, "run": "^TestVerif_C12_UnreadBacklog$", "realtime": True, "checks": {"quick": 10, "thorough": 300}, "shards": {"thorough": 4}, "timeout": {"quick": 900}},
         {"pkg": MUX, "run": "^TestVerif_C12_CloseRace$", "realtime": True, "checks": {"quick": 80, "thorough": 2000}, "shards": {"thorough": 8}, "timeout": {"quick": 900}},
+        {"pkg": MUX, "run": "^TestVerif_C12_IdleRace$", "realtime": True, "checks": {"quick": 8, "thorough": 300}, "shards": {"thorough": 4}, "timeout": {"quick": 600}},
         {"pkg": MUX, "run": "^TestVerif_C12_Inactivity$", "checks": {"quick": 1500, "thorough": 150000}, "shards": {"thorough": 16}, "timeout": {"quick": 300}},
     ],
 }
